@@ -652,7 +652,7 @@ static int add_properties(vnacal_t *vcp, yaml_document_t *document,
  */
 int vnacal_save(vnacal_t *vcp, const char *pathname)
 {
-    FILE *fp;
+    FILE *fp = NULL;
     yaml_document_t document;
     yaml_version_directive_t version = { 1, 1 };
     yaml_tag_directive_t tags[1];
@@ -661,11 +661,6 @@ int vnacal_save(vnacal_t *vcp, const char *pathname)
     bool delete_emitter = false;
     int t_root, t_properties, t_calibrations;
 
-    if ((fp = fopen(pathname, "w")) == NULL) {
-	_vnacal_error(vcp, VNAERR_SYSTEM, "fopen: %s: %s",
-		pathname, strerror(errno));
-	return -1;
-    }
     free((void *)vcp->vc_filename);
     if ((vcp->vc_filename = strdup(pathname)) == NULL) {
 	_vnacal_error(vcp, VNAERR_SYSTEM,
@@ -925,6 +920,11 @@ int vnacal_save(vnacal_t *vcp, const char *pathname)
     /*
      * Write the output file.
      */
+    if ((fp = fopen(pathname, "w")) == NULL) {
+	_vnacal_error(vcp, VNAERR_SYSTEM, "fopen: %s: %s",
+		pathname, strerror(errno));
+	goto error;
+    }
     (void)fprintf(fp, "#VNACal 1.0\n");
     if (!yaml_emitter_initialize(&emitter)) {
 	if (errno == 0) {
